@@ -113,6 +113,39 @@ class Class:
         return '<Class %s>' % self.qual
 
 
+_CMP_SWAP = {ast.Lt: ast.Gt, ast.Gt: ast.Lt, ast.LtE: ast.GtE, ast.GtE: ast.LtE, ast.Eq: ast.Eq, ast.NotEq: ast.NotEq}
+
+
+class _Canon(ast.NodeTransformer):
+    """Semantics-preserving canonical form applied to every parsed module so
+    that rules see one spelling of equivalent code:
+
+    * Yoda comparisons: `CONST op x` -> `x op' CONST` (single comparison, the
+      left operand a literal, the right one not);
+    * a two-armed `if not c: A else: B` (B not an elif chain) -> `if c: B else: A`.
+
+    Line numbers are kept; construct texts in reports are the canonical form."""
+
+    def visit_Compare(self, n):
+        self.generic_visit(n)
+        def lit(e):
+            return isinstance(e, ast.Constant) or (isinstance(e, ast.UnaryOp) and isinstance(e.op, (ast.USub, ast.UAdd))
+                                                   and isinstance(e.operand, ast.Constant))
+
+        if len(n.ops) == 1 and type(n.ops[0]) in _CMP_SWAP and lit(n.left) and not lit(n.comparators[0]):
+            new = ast.Compare(left=n.comparators[0], ops=[_CMP_SWAP[type(n.ops[0])]()], comparators=[n.left])
+            return ast.copy_location(new, n)
+        return n
+
+    def visit_If(self, n):
+        self.generic_visit(n)
+        if (isinstance(n.test, ast.UnaryOp) and isinstance(n.test.op, ast.Not) and n.orelse
+                and not (len(n.orelse) == 1 and isinstance(n.orelse[0], ast.If))):
+            new = ast.If(test=n.test.operand, body=n.orelse, orelse=n.body)
+            return ast.copy_location(new, n)
+        return n
+
+
 class Module:
     def __init__(self, name, path, relpath, source, is_pkg):
         self.name = name
@@ -120,7 +153,7 @@ class Module:
         self.relpath = relpath
         self.source = source
         self.is_pkg = is_pkg
-        self.tree = ast.parse(source, filename=path)
+        self.tree = _Canon().visit(ast.parse(source, filename=path))
         self.imports: Dict[str, str] = {}
         self.star_imports: List[str] = []
         self.functions: Dict[str, Func] = {}
